@@ -37,6 +37,8 @@ struct N {
   depth: usize,
   parent: usize,
   bad: bool, // ERROR or MISSING
+  /// character columns of start and end (`Position::column`, counted from the text of the line)
+  cc: (usize, usize),
 }
 
 fn dfs(root: &Node<SDoc>) -> Vec<N> {
@@ -55,6 +57,7 @@ fn dfs(root: &Node<SDoc>) -> Vec<N> {
       depth,
       parent,
       bad: n.is_error() || n.get_ts_node().is_missing(),
+      cc: (n.start_pos().column(n), n.end_pos().column(n)),
     });
     let mut k = 0;
     for c in n.children() {
@@ -820,6 +823,39 @@ pub fn editdoc(ctx: &Ctx, rng: &mut Rng, o: &mut Out) {
     }
   }
   o.oracle("c10_search", true, json!({"cases": search_cases, "documents": search_docs}));
+
+  // 1c. the first multi-byte text an edit brings into a document that was pure ASCII when it was
+  // parsed (whatever was decided about the text at parse time must be decided again): a comment
+  // with multi-byte characters in front of an item that has more nodes on its line
+  let mut ascii_docs = 0usize;
+  for b in &bases {
+    if !b.unit.is_ascii() {
+      continue;
+    }
+    let (open, close) = comment_syntax(&b.dir);
+    let mut sg = b.lang.ast_grep(&b.unit);
+    let tops: Vec<(usize, usize)> = sg.root().children().filter(|c| c.is_named() && c.range().len() > 0).map(|c| (c.range().start, c.range().end)).collect();
+    let Some(&(pos, _)) = tops.iter().find(|(s, e)| !b.unit[*s..*e].contains('\n') || b.unit[*s..*e].lines().next().map(|l| l.len() > 3).unwrap_or(false)) else { continue };
+    // line comments end their line: put them on a line of their own only when there is no closer
+    let ins = if close.is_empty() { format!("{open}h\u{e9}llo \u{2192} \u{1d4b3}\n") } else { format!("{open}h\u{e9}llo \u{2192} \u{1d4b3}{close}") };
+    let Some(new_text) = reference_splice(&b.unit, pos, 0, &ins) else { continue };
+    let fresh = dfs(&b.lang.ast_grep(&new_text).root());
+    if !clean(&fresh) {
+      continue;
+    }
+    ascii_docs += 1;
+    let _ = dfs(&sg.root());
+    let e = Edit::<String> { position: pos, deleted_length: 0, inserted_text: ins.as_bytes().to_vec() };
+    if sg.edit(e).is_err() || sg.source() != new_text {
+      o.oracle("c10_text", false, json!({"fp": "inserting a multi-byte comment does not give the spliced text", "input": {"lang": b.dir, "pos": pos, "ins": ins}}));
+      continue;
+    }
+    if let Err(d) = tree_verdict_with(&sg, b.lang, Some(fresh)) {
+      o.oracle("c10_tree", false, json!({"fp": "edited tree differs from fresh parse: first multi-byte text in an ASCII document", "class": "insert",
+        "lang": b.dir, "input": history_args(&b.dir, &b.unit, &[Step { api: Api::Edit, class: "ascii-to-multibyte", position: pos, deleted: 0, inserted: ins.clone() }]), "observed": d}));
+    }
+  }
+  o.oracle("c10_ascii_to_multibyte", true, json!({"cases": ascii_docs}));
 
   // 2. function level: `accept_edit` and `position_for_offset` on small texts, out-of-range included
   let m = if ctx.thorough { 40_000 } else { 4_000 };
